@@ -30,6 +30,19 @@ pub fn client_addr(i: usize) -> SocketAddr {
     SocketAddr::new(IpAddr::V4(Ipv4Addr::new(192, 168, 0, 10 + i as u8)), 4000 + i as u16)
 }
 
+/// Client ids of a case are `id_base(seed) + small number`: ids of every magnitude are legal (account numbers, 64-bit platform
+/// ids, random values), and nothing may depend on an id being small.
+pub fn id_base(seed: u64) -> u64 {
+    match (seed >> 9) % 8 {
+        0..=2 => 0,
+        3 => 1 << 56,
+        4 => (1 << 63) + 5,
+        5 => u64::MAX - 5_000,
+        6 => 0x0110_0001_0000_0000,
+        _ => (1 << 32) - 2,
+    }
+}
+
 pub fn key(n: u64) -> [u8; 32] {
     let mut k = [0u8; 32];
     fill_stream(0x5eed_0000 + n, &mut k);
